@@ -1638,7 +1638,7 @@ def xt_setup(inp, rng):
                     j = i if r < 0.3 else (i ^ (1 << rng.randrange(L)) if r < 0.7 else rng.randrange(2**L))
                     pairs.append((i, j))
                 digs = lambda k: [int(x) for x in format(k, f"0{L}b")]  # noqa: E731  (site 0 most significant)
-                ham_case = {"req": f"fsmpath {L} | {terms_string(rec[0][0])} | " + " ; ".join(" ".join(map(str, digs(i) + digs(j))) for i, j in pairs),
+                ham_case = {"req": f"fsmpath {L} | {terms_string(rec[0][0]) if rec[0][0] else 'none'} | " + " ; ".join(" ".join(map(str, digs(i) + digs(j))) for i, j in pairs),
                             "impl": " ".join(cfmt(hm[i, j]) for i, j in pairs), "oracle": None, "kind": "trotter-deriv-ham-" + b,
                             "sig": f"tderivham:{b}:{L}:{per}", "nontrivial": any(abs(hm[i, j]) > 0 for i, j in pairs)}
         return (one, many, H, req, f"{b}(L={L}, periodic={per})", f"{b}:{L}:{per}", hsrc, ham_case), None
